@@ -550,11 +550,21 @@ def _record_oracle(row, fields):
     return oracle
 
 
+def _unwrap_iter(t):
+    """iter(X) / list(X) / tuple(X) of an iterable value X iterate X."""
+    while True:
+        m = re.match(r'^(?:iter|list|tuple)\((.*)\)$', t)
+        if not m or not _balanced(m.group(1)):
+            return t
+        t = m.group(1)
+
+
 def _selected(prog, f, row, M):
     """Does the selector yield a record of this row?  True / False; AnalysisError when the shape is not understood."""
     sc = Scenario(oracle=_record_oracle(row, M.fields), inline=noinline, decide_filters=True)
     outs = Interp(prog, sc).run(f)
-    whole = 'EACH($1 in %s;$1)' % M.coll.replace(M.f.params[0] + '.', f.params[0] + '.', 1)
+    coll = M.coll.replace(M.f.params[0] + '.', f.params[0] + '.', 1)
+    whole = 'EACH($1 in %s;$1)' % coll
     res = set()
     for s in outs:
         if s.raised is not None:
@@ -562,12 +572,14 @@ def _selected(prog, f, row, M):
         ys = [render(y) for y in s.yields]
         if not ys and s.ret is not None and not (isinstance(s.ret, Const) and s.ret.value is None):
             ys = [render(s.ret)]            # a plain function returning the iterable
-        ys = [alpha(y[1:] if y.startswith('*') else y) for y in ys]
+        ys = [alpha(_unwrap_iter(y[1:] if y.startswith('*') else y)) for y in ys]
         ys = [y for y in ys if y not in ('[]', '()')]
         if not ys:
             res.add(False)
         elif ys == [whole]:
             res.add(True)
+        elif len(ys) == 1 and re.match(r'^EACH\(\$1 in SLICE\(%s;[^;]*;[^;]*\);\$1\)$' % re.escape(coll), ys[0]):
+            return ('partial', ys[0])           # only a slice of the records is examined: some record is listed nowhere
         else:
             raise AnalysisError('SignatureVerification.%s: per-record selection not understood: %s' % (f.name, ys))
     if len(res) != 1:
@@ -618,6 +630,11 @@ def check_partition(rep, prog, rid):
     bad = [_selected(prog, fs['bad_signatures'], r, M) for r in ROWS]
     bl = [_bool_row(prog, fs['__bool__'], r, M) for r in ROWS]
     rep.analysed['paths'] += 3 * len(ROWS)
+    for name, tbl in (('good_signatures', good), ('bad_signatures', bad)):
+        part = [x for x in tbl if isinstance(x, tuple)]
+        rep.check(not part, rid, 'SignatureVerification.%s' % name, 'records examined',
+                  'every record must be listed exactly once, as good or as bad', where=fs[name].where,
+                  expected='all of %s' % M.coll, found=part[0][1] if part else None)
     conj = [b for b in bl if isinstance(b, tuple)]
     rep.check(not conj, rid, 'SignatureVerification.__bool__', 'aggregation over records',
               'truthiness must require every record to be good (all(...))', where=fs['__bool__'].where, found=conj[0][1] if conj else None)
